@@ -578,62 +578,177 @@ def library_cases():
     return cases
 
 
-def run_library_probe(cases, tag):
-    """Runs the library cases in ONE child process (COLANGPATH must be set before import)."""
+# ---- the library rails driven by a JUDGE whose verdict is a function of the prompt it is shown
+# (marker present => block), with texts of edge sizes: the rail must be shown the COMPLETE text
+# that is later released (or the text is refused / the turn fails closed)
+
+JUDGE_MARK = "FORBIDDENz"
+JUDGE_SIZES = [1, 100, 7999, 8001, 20000]
+JUDGE_POS = ["none", "begin", "middle", "end"]
+JUDGE_YML = """
+models: []
+rails:
+  {side}:
+    flows: [self check {side}]
+enable_rails_exceptions: false
+prompts:
+  - task: self_check_{side}
+    content: "JUDGE-{SIDE}: {{{{ {var} }}}}"
+core:
+  embedding_search_provider:
+    name: verif
+"""
+JUDGE_V2_CO = LIB_V2_CO.replace("import nemoguardrails.library.self_check.output_check",
+                                "import nemoguardrails.library.self_check.SIDE_check")
+
+
+def judge_text(size, pos):
+    """A text of about `size` characters (no quotes/newlines, no outer blanks) with the marker at pos."""
+    filler = ("lorem ipsum " * (size // 12 + 1))[:size].strip() or "a"
+    if len(filler) < size:
+        filler = filler + "x" * (size - len(filler))
+    if pos == "none":
+        return filler
+    if pos == "begin":
+        return (JUDGE_MARK + " " + filler)[:max(size, len(JUDGE_MARK))].strip()
+    if pos == "end":
+        return (filler[:max(0, size - len(JUDGE_MARK) - 1)] + " " + JUDGE_MARK).strip()
+    h = max(0, (size - len(JUDGE_MARK)) // 2)
+    return (filler[:h] + " " + JUDGE_MARK + " " + filler[h:max(h, size - len(JUDGE_MARK) - 2)]).strip()
+
+
+def run_library_judge_case(case):
+    logging.disable(logging.CRITICAL)
+    sys.path.insert(0, C.REPO)
+    from nemoguardrails import LLMRails, RailsConfig
+    from tests.utils import FakeLLM
+
+    side = case["rail"]
+    yml = JUDGE_YML.format(side=side, SIDE=side.upper(), var="bot_response" if side == "output" else "user_input")
+    if case["ver"] == "v2":
+        config = RailsConfig.from_content(JUDGE_V2_CO.replace("SIDE", side), 'colang_version: "2.x"\n' + yml)
+    else:
+        config = RailsConfig.from_content("", yml)
+    config.config_path = ensure_cfg_dir()
+    sized = judge_text(case["size"], case["pos"])
+    if side == "output":
+        users, answers = ["hello", "tell me"], ["short clean answer", sized]
+    else:
+        users, answers = ["hello", sized], ["first answer", "second answer"]
+    log = {"turn": 0, "shown": [], "gen": 0}
+
+    class Judge(FakeLLM):
+        def _reply(self, prompt):
+            text = prompt if isinstance(prompt, str) else json.dumps(prompt, default=str)
+            tag = f"JUDGE-{side.upper()}: "
+            if tag in text:
+                shown = text.split(tag, 1)[1]
+                log["shown"].append(shown)
+                return "Yes" if JUDGE_MARK in shown else "No"
+            log["gen"] += 1
+            a = answers[log["turn"]]
+            return f'"{a}"' if case["ver"] == "v2" else a
+
+        def _call(self, prompt, stop=None, run_manager=None, **kw):
+            return self._reply(prompt)
+
+        async def _acall(self, prompt, stop=None, run_manager=None, **kw):
+            return self._reply(prompt)
+
+    app = LLMRails(config, llm=Judge(responses=[]))
+    out, history, state = [], [], {}
+    for t in range(2):
+        log.update(turn=t, shown=[], gen=0)
+        full = answers[t] if side == "output" else users[t]
+        ob = {}
+        try:
+            if case["ver"] == "v2":
+                res = app.generate(messages=[{"role": "user", "content": users[t]}], state=state)
+                state = res.state
+                msg = res.response[0]
+                content = msg.get("content") or ""
+                utter = [content] if content else []
+            else:
+                history.append({"role": "user", "content": users[t]})
+                res = app.generate(messages=history)
+                history.append(res)
+                utter = [] if res.get("role") == "exception" else [res.get("content") or ""]
+        except Exception as e:  # noqa: BLE001 - fail-closed as far as C02 is concerned; recorded
+            ob["error"] = f"{type(e).__name__}: {e}"[:200]
+            utter = []
+        ob.update({"text_len": len(full), "gen_calls": log["gen"],
+                   "shown": [{"len": len(x), "complete": full in x, "marker": JUDGE_MARK in x} for x in log["shown"]],
+                   "utter": [{"len": len(u), "is_full_text": u == answers[t], "marker": JUDGE_MARK in u, "head": u[:60]}
+                             for u in utter]})
+        out.append(ob)
+        if "error" in ob:
+            break
+    return out
+
+
+def library_judge_oracle(case, observed):
+    """The rail is SHOWN the complete text: an LLM answer that is released to the caller was contained
+    completely in a prompt of `self check output`; a generation step runs only after
+    `self check input` was shown the complete user message.  A marked text is never released."""
+    out = []
+    side, chan = case["rail"], f"{case['ver']}-size{case['size']}-{case['pos']}"
+    for t, ob in enumerate(observed):
+        complete = any(x["complete"] for x in ob.get("shown", []))
+        if side == "output":
+            for u in ob.get("utter", []):
+                if u["marker"]:
+                    out.append(("library-self-check-output-marked-text-released",
+                                f"{chan}, turn {t}: the released answer ({u['len']} chars) contains the marker the judge blocks; "
+                                f"the rail was shown {[(x['len'], x['complete']) for x in ob['shown']]} (len, complete)", t))
+                elif u["is_full_text"] and not complete:
+                    out.append(("library-self-check-output-not-shown-the-complete-text",
+                                f"{chan}, turn {t}: answer of {u['len']} chars released, the rail was shown "
+                                f"{[(x['len'], x['complete']) for x in ob['shown']]} (len, complete)", t))
+        else:
+            if ob.get("gen_calls", 0) > 0 and not complete:
+                out.append(("library-self-check-input-not-shown-the-complete-text",
+                            f"{chan}, turn {t}: generation ran on a user message of {ob['text_len']} chars, the rail was shown "
+                            f"{[(x['len'], x['complete']) for x in ob['shown']]} (len, complete)", t))
+            if ob.get("gen_calls", 0) > 0 and t == 1 and case["pos"] != "none":
+                out.append(("library-self-check-input-marked-text-reached-generation",
+                            f"{chan}, turn {t}: a marked user message reached the LLM", t))
+    return out
+
+
+def library_judge_cases():
+    return [{"lib": "judge", "rail": rail, "ver": ver, "size": size, "pos": pos}
+            for rail in ("output", "input") for ver in ("v1", "v2") for size in JUDGE_SIZES for pos in JUDGE_POS]
+
+
+def run_library_probe(cases, tag, jobs=8):
+    """Runs the library cases in child processes (COLANGPATH must be set before nemoguardrails is imported)."""
     d = os.path.join(C.BUILD, "pipe", tag)
     os.makedirs(d, exist_ok=True)
-    pin, pout = os.path.join(d, "lib_in.json"), os.path.join(d, "lib_out.json")
-    with open(pin, "w") as f:
-        json.dump(cases, f)
-    if os.path.exists(pout):
-        os.remove(pout)
     env = dict(os.environ)
     env.update(C.impl_env())
     env["COLANGPATH"] = C.REPO
-    rc, log = C.sh(["timeout", "600", C.PY, "-m", "harness.pipe_driver", "--library", pin, pout], cwd=C.VERIF, env=env, timeout=700)
-    if rc != 0 or not os.path.exists(pout):
-        return None, f"library probe rc={rc}: {log[-1500:]}"
-    return json.load(open(pout)), None
-
-
-# ---------------------------------------------------------------------------------------
-# parallel execution: chunks of cases in child processes (each under a shell timeout)
-
-
-def run_cases_parallel(cases, tag, jobs=None, timeout=900):
-    jobs = jobs or C.NPROC
-    d = os.path.join(C.BUILD, "pipe", tag)
-    os.makedirs(d, exist_ok=True)
-    # interleave so that every worker gets a similar mix (an LLMRails instance is built once per
-    # configuration and process; there are few configurations)
-    n_chunks = max(1, min(jobs, len(cases)))
-    chunks = [list(range(ci, len(cases), n_chunks)) for ci in range(n_chunks)]
+    n = max(1, min(jobs, len(cases)))
     procs = []
-    env = dict(os.environ)
-    env.update(C.impl_env())
-    for ci, idxs in enumerate(chunks):
-        pin, pout = os.path.join(d, f"in_{ci}.json"), os.path.join(d, f"out_{ci}.json")
+    for ci in range(n):
+        idxs = list(range(ci, len(cases), n))
+        pin, pout = os.path.join(d, f"lib_in_{ci}.json"), os.path.join(d, f"lib_out_{ci}.json")
         with open(pin, "w") as f:
             json.dump([cases[i] for i in idxs], f)
         if os.path.exists(pout):
             os.remove(pout)
-        errf = open(os.path.join(d, f"err_{ci}.log"), "w")
-        p = subprocess.Popen(["timeout", str(timeout), C.PY, "-m", "harness.pipe_driver", "--worker", pin, pout],
+        errf = open(os.path.join(d, f"lib_err_{ci}.log"), "w")
+        p = subprocess.Popen(["timeout", "900", C.PY, "-m", "harness.pipe_driver", "--library", pin, pout],
                              cwd=C.VERIF, env=env, stdout=subprocess.DEVNULL, stderr=errf)
         procs.append((p, idxs, pout, errf))
     results = [None] * len(cases)
-    errors = []
     for p, idxs, pout, errf in procs:
         p.wait()
         errf.close()
         if p.returncode != 0 or not os.path.exists(pout):
-            tail = open(errf.name, errors="replace").read()[-1500:]
-            errors.append(f"worker rc={p.returncode}: {tail}")
-            continue
-        outs = json.load(open(pout))
-        for i, o in zip(idxs, outs):
+            return None, f"library probe rc={p.returncode}: {open(errf.name, errors='replace').read()[-1500:]}"
+        for i, o in zip(idxs, json.load(open(pout))):
             results[i] = o
-    return results, errors
+    return results, None
 
 
 def _worker(pin, pout):
@@ -1054,7 +1169,7 @@ def run_check(pid, gen, focus, oracle, tier, seed, replay, checker_cmd, rule, as
                     continue
                 cases.append(d["case"])
                 origin.append("corpus:" + fn)
-    lib_cases = (corpus_lib if library else []) + (library_cases() if (library and not replay) else [])
+    lib_cases = (corpus_lib if library else []) + ((library_cases() + library_judge_cases()) if (library and not replay) else [])
     if replay:
         d = json.load(open(replay))
         r = d.get("replay", d)
@@ -1164,13 +1279,16 @@ def run_check(pid, gen, focus, oracle, tier, seed, replay, checker_cmd, rule, as
         else:
             by = {}
             for lc, lo in zip(lib_cases, lib_obs):
-                for sig, what, _t in library_oracle(lc, lo):
+                for sig, what, _t in (library_judge_oracle(lc, lo) if lc.get("lib") == "judge" else library_oracle(lc, lo)):
                     lib_viol += 1
                     by.setdefault(sig, []).append((what, lc, lo))
             for sig, lst in by.items():
-                what, lc, lo = min(lst, key=lambda x: len(x[1]["blocks"]))
+                what, lc, lo = min(lst, key=lambda x: (x[1].get("size", 0), len(x[1].get("blocks", []))))
                 out.findings.append(C.Finding(sig, f"{what} ({len(lst)} library conversations)",
                                               {"case": lc, "observed": lo, "signature": sig, "what": what}))
+        if lib_obs is not None:
+            out.coverage["library_rail_fail_closed_errors"] = sum(
+                1 for lo in lib_obs for t in (lo or []) if isinstance(t, dict) and "error" in t)
         out.coverage["library_rail_conversations"] = len(lib_cases)
         out.coverage["library_rail_violations"] = lib_viol
 
@@ -1264,6 +1382,9 @@ OBSERVATIONS = [
     "O5: Colang 1.0 explicit state API: GenerationResponse.state holds the events of the LAST call only "
     "(generate_async returns {'events': events} without the state_events it started from), so a call sees the history "
     "and context of the previous call and nothing older; every call is still gated (modelled in PipeRun.conv_v1_state)",
+    "O6: shipped `self check input` / `self check output` with texts of 1 .. 20 000 characters: the rail prompt contains the "
+    "complete text up to the prompt's max_length (16 000); beyond it render_task_prompt raises inside the action - Colang 1.0 "
+    "answers with the internal-error message, Colang 2.x treats the failed action as not allowed and refuses (both fail-closed)",
     "O3: after an internal error (hide_prev_turn) flows read the context of the truncated history while "
     "_process_start_action suppresses ContextUpdates equal to the context of ALL events: a later rail decision can read a "
     "stale action result (seen with passthrough + exception message in the caller's list); reported to the C03 builder",
@@ -1277,7 +1398,7 @@ if __name__ == "__main__":
         _outs = []
         for _c in _cases:
             try:
-                _outs.append(run_library_case(_c))
+                _outs.append(run_library_judge_case(_c) if _c.get("lib") == "judge" else run_library_case(_c))
             except Exception as _e:  # noqa: BLE001
                 _outs.append([{"error": f"driver: {type(_e).__name__}: {_e}"[:300]}])
         with open(sys.argv[3], "w") as _f:
